@@ -245,6 +245,13 @@ def combine (op : SetOp) (cap a b : Nat) : Nat :=
   | .inter => a &&& b
   | .invert => a ^^^ (2 ^ cap - 1)
 
+/-- the Boolean operation a set operation is supposed to be, bit by bit -/
+def combineBit (op : SetOp) (a b : Bool) : Bool :=
+  match op with
+  | .union => a || b
+  | .inter => a && b
+  | .invert => !a
+
 /-- `union_with / intersect / invert` (for invert `u` is ignored: pass `v`) -/
 def opSet (P : Params) (fx : Fix) (w : World) (op : SetOp) (v u : Nat) : World × Out :=
   match w.filters v, w.filters u with
@@ -273,59 +280,76 @@ def image (P : Params) (w : World) (f : Filter) : Block :=
      setField (setField (headerVal P P.preStd 0 f.numHashes f.seed (f.capBits / 64))
        192 64 (if f.dirty then P.dirty else f.nbs)) 256 f.capBits (w.bitsOf P f)⟩
 
-/-- serialize `v` into the (new) caller block `m` -/
+/-- serialize `v` into the NEW caller block `m` (block ids are never reused: a block is memory that views may point into) -/
 def opSer (P : Params) (w : World) (v m : Nat) : World × Out :=
-  match w.filters v with
-  | none => (w, .oob)
-  | some f => (w.setBlock m (image P w f), .ok)
+  match w.filters v, w.blocks m with
+  | some f, none => (w.setBlock m (image P w f), .ok)
+  | _, _ => (w, .oob)
+
+/-- the history supplies a NEW caller block with arbitrary content -/
+def opBlk (w : World) (m len val : Nat) : World × Out :=
+  match w.blocks m with
+  | none => (w.setBlock m ⟨len, val % 2 ^ (8 * len)⟩, .ok)
+  | some _ => (w, .oob)
 
 inductive WrapKind where | deser | wrap | wwrap
 deriving Repr, DecidableEq
+
+/-- outcome of the header checks shared by deserialize / wrap / writable_wrap -/
+inductive Parsed where
+  | refuse                                   -- an exception
+  | outside                                  -- outside the modelled domain (count read past a short buffer; zero-length array)
+  | emptyImg (numBits nh seed : Nat)          -- image with the EMPTY flag
+  | full (cap nh seed nbs nl : Nat)           -- standard image
+deriving Repr, DecidableEq
+
+def parseImage (P : Params) (b : Block) : Parsed :=
+  let L := b.len
+  let X := b.val
+  if L < 8 then .refuse else
+  let pre := getField X 0 8
+  if pre < P.preEmpty || pre > P.preStd then .refuse else
+  if getField X 8 8 != P.serVer then .refuse else
+  if getField X 16 8 != P.family then .refuse else
+  if L < pre * 8 then .refuse else
+  let nh := getField X 32 16
+  let seed := getField X 64 64
+  let nl := getField X 128 32
+  if getField X 24 8 &&& P.emptyMask != 0 then .emptyImg ((nl * 64) % 2 ^ 32) nh seed
+  else if L < 32 then .outside
+  else if (nl * 64) % 2 ^ 32 == 0 then .outside
+  else .full ((nl * 64) % 2 ^ 32) nh seed (getField X 192 64) nl
+
+def deserFilter (P : Params) (X cap nh seed nbs nl : Nat) : Filter :=
+  { seed := seed, numHashes := nh, capBits := cap, ref := .owned (getField X 256 (8 * ((nl * 8) % 2 ^ 32))),
+    nbs := nbs, dirty := nbs == P.dirty, readOnly := false }
+
+def wrapFilter (P : Params) (m X cap nh seed nbs : Nat) (ro : Bool) : Filter :=
+  { seed := seed, numHashes := nh, capBits := cap, ref := .mem m,
+    nbs := if ro && nbs == P.dirty then popCount X (8 * P.bitsOff) cap else nbs,
+    dirty := nbs == P.dirty, readOnly := ro }
 
 /-- `internal_deserialize_or_wrap` on block `m`, result bound to `v` -/
 def opWrap (P : Params) (w : World) (k : WrapKind) (m v : Nat) : World × Out :=
   match w.blocks m with
   | none => (w, .oob)
   | some b =>
-    let L := b.len
-    let X := b.val
-    if L < 8 then (w, .thrw) else
-    let pre := getField X 0 8
-    let flags := getField X 24 8
-    if pre < P.preEmpty || pre > P.preStd then (w, .thrw) else
-    if getField X 8 8 != P.serVer then (w, .thrw) else
-    if getField X 16 8 != P.family then (w, .thrw) else
-    if L < pre * 8 then (w, .thrw) else
-    let nh := getField X 32 16
-    let seed := getField X 64 64
-    let nl := getField X 128 32
-    let empty := flags &&& P.emptyMask != 0
-    if empty then
+    match parseImage P b with
+    | .refuse => (w, .thrw)
+    | .outside => (w, .oob)
+    | .emptyImg numBits nh seed =>
+      -- writable wrap of an empty image is refused; otherwise a fresh owned filter from the plain constructor
       if k == .wwrap then (w, .thrw)
-      else
-        -- plain constructor of a fresh owned filter (its own argument checks)
-        let numBits := (nl * 64) % 2 ^ 32
-        if badSize P numBits nh then (w, .thrw) else (w.setFilter v (mkOwned numBits nh seed), .ok)
-    else
-      if L < 32 then (w, .oob) else
-      let nbs := getField X 192 64
-      let dirty := nbs == P.dirty
-      let cap := (nl * 64) % 2 ^ 32
-      if cap == 0 then (w, .oob) else
+      else if badSize P numBits nh then (w, .thrw)
+      else (w.setFilter v (mkOwned numBits nh seed), .ok)
+    | .full cap nh seed nbs nl =>
       match k with
       | .deser =>
-        let nbytes := (nl * 8) % 2 ^ 32
-        if L - 32 < nbytes then (w, .thrw)
-        else
-          let f : Filter := { seed := seed, numHashes := nh, capBits := cap, ref := .owned (getField X 256 (8 * nbytes)),
-                              nbs := nbs, dirty := dirty, readOnly := false }
-          (w.setFilter v f, .ok)
-      | _ =>
-        if L < 32 + cap / 8 then (w, .oob) else
-        let ro := k == .wrap
-        let f : Filter := { seed := seed, numHashes := nh, capBits := cap, ref := .mem m,
-                            nbs := if ro && dirty then popCount X (8 * P.bitsOff) cap else nbs,
-                            dirty := dirty, readOnly := ro }
-        (w.setFilter v f, .ok)
+        if b.len - 32 < (nl * 8) % 2 ^ 32 then (w, .thrw)
+        else (w.setFilter v (deserFilter P b.val cap nh seed nbs nl), .ok)
+      | .wrap =>
+        if b.len < 32 + cap / 8 then (w, .oob) else (w.setFilter v (wrapFilter P m b.val cap nh seed nbs true), .ok)
+      | .wwrap =>
+        if b.len < 32 + cap / 8 then (w, .oob) else (w.setFilter v (wrapFilter P m b.val cap nh seed nbs false), .ok)
 
 end DS.Bloom
